@@ -393,11 +393,20 @@ static int print_f(void (*printchar_handler)(void *d, int c),
 
     do
     {
-        ch = (int)FMOD(ip, (long double)base);
-        if (ch >= 10)
-            ch += letter_base - 10 - '0';
-        *--str = ch + '0';
-        MODF(ip / base, &ip);
+        /* take 16 digits at a time: the remainder is exact and short enough
+         * for its digits to come out exactly, and the quotient (an integer
+         * up to rounding) is rounded once per 16 digits instead of once per
+         * digit */
+        fp = FMOD(ip, POW(base, 16));
+        ip = roundl((ip - fp) / POW(base, 16));
+        for (i = 0; (i < 16) && (!i || (ip != 0.0L) || (fp != 0.0L)); ++i)
+        {
+            ch = (int)FMOD(fp, base);
+            if (ch >= 10)
+                ch += letter_base - 10 - '0';
+            *--str = ch + '0';
+            MODF(fp / base, &fp);
+        }
     } while (ip != 0.0L);
 
     len = (int)(end - str);
